@@ -42,6 +42,15 @@ theorem gramK_congr (c : ℝ) (T : ℕ) {u v : ℕ → ℕ → ℂ} {i j i' j' :
   refine sum_congr rfl fun t ht => ?_
   rw [hi t (mem_range.1 ht), hj t (mem_range.1 ht)]
 
+/-- scaling every vector by `a` scales the kernel by `|a|²` -/
+theorem gramK_smul (c : ℝ) (T : ℕ) (a : ℂ) (u : ℕ → ℕ → ℂ) (i j : ℕ) :
+    gramK c T (fun i t => a * u i t) i j = (Complex.normSq a : ℂ) * gramK c T u i j := by
+  unfold gramK
+  rw [Finset.mul_sum, Finset.mul_sum, Finset.mul_sum]
+  refine sum_congr rfl fun t _ => ?_
+  rw [map_mul, Complex.normSq_eq_conj_mul_self]
+  ring
+
 /-- any finite section of a Gram kernel with `c ≥ 0` is positive semidefinite -/
 theorem gramK_posSemidef {c : ℝ} (hc : 0 ≤ c) (T : ℕ) (u : ℕ → ℕ → ℂ) (M : ℕ) :
     (Matrix.of fun (i j : Fin M) => gramK c T u i j).PosSemidef := by
